@@ -4,8 +4,16 @@ use crate::push::item::Item;
 use crate::push::state::PushState;
 use crate::push::state::*;
 use std::collections::HashMap;
+#[cfg(not(feature = "verif"))]
 use std::process::Command;
+#[cfg(feature = "verif")]
+use crate::push::verif_seam::Command;
+#[cfg(not(feature = "verif"))]
 use std::{thread, time::Duration};
+#[cfg(feature = "verif")]
+use crate::push::verif_seam::thread;
+#[cfg(feature = "verif")]
+use std::time::Duration;
 
 /// Code queued for execution. The EXEC stack maintains the execution state of the Push
 /// interpreter. Instructions that specifically manipulate the EXEC stack can be used to implement
